@@ -16,6 +16,16 @@ type executionContext struct {
 }
 
 func (e *executionContext) AppendLog(ctx context.Context, log *ledger.Log) (*ledger.ChainedLog, chan struct{}, error) {
+	if !e.parameters.DryRun {
+		e.commander.sequenceMu.Lock()
+		defer e.commander.sequenceMu.Unlock()
+	}
+	return e.appendLog(ctx, log)
+}
+
+// appendLog chains the log and hands it to the batcher. Unless in dry-run mode,
+// the caller must hold commander.sequenceMu.
+func (e *executionContext) appendLog(ctx context.Context, log *ledger.Log) (*ledger.ChainedLog, chan struct{}, error) {
 	if e.parameters.DryRun {
 		ret := make(chan struct{})
 		close(ret)
